@@ -518,116 +518,11 @@ func totalSec(tr mp4build.Track) float64 {
 
 func genSegmenter(t *rapid.T) (segCase, bool, []string) {
 	var excluded []string
-	// default stsd of mp4build = harvested avc1 (video) and mp4a (audio): codecs the tool supports
-	tracks := mp4build.GenTracks(t, mp4build.GenOpt{MinTracks: 1, MaxTracks: 2, MaxSamples: harness.Pick(30, 60)})
-	video := &tracks[0]
-	// the reference track starts with a sync sample (a file that does not cannot be cut into segments
-	// that all start with one); three out of four single-sync tracks get a GOP structure
-	video.Samples[0].Sync = true
-	if n := len(video.Samples); n > 2 {
-		syncs := 0
-		for _, s := range video.Samples {
-			if s.Sync {
-				syncs++
-			}
-		}
-		if syncs <= 1 && rapid.IntRange(0, 3).Draw(t, "addGop") != 0 {
-			gop := rapid.IntRange(1, n-1).Draw(t, "gopLen")
-			for i := 0; i < n; i += gop {
-				video.Samples[i].Sync = true
-			}
-		}
-	}
-	// presentation times (decode time + composition offset) of the reference track are not negative: the
-	// tool picks the segment starts by presentation time >= n*segDur and has nothing to pick otherwise
-	{
-		var st, shift int64
-		for _, s := range video.Samples {
-			if p := st + int64(s.Cto); -p > shift {
-				shift = -p
-			}
-			st += int64(s.Dur)
-		}
-		for i := range video.Samples {
-			video.Samples[i].Cto += int32(shift)
-		}
-	}
-	// millisecond resolution of -d: slow down microsecond tracks (seven out of eight)
-	if n := float64(len(video.Samples)); totalSec(*video) < 0.002*n && rapid.IntRange(0, 7).Draw(t, "refSlow") != 0 {
-		m := uint64(0.002*n/totalSec(*video)) + 1
-		for i := range video.Samples {
-			if v := uint64(video.Samples[i].Dur) * m; v < 1<<30 {
-				video.Samples[i].Dur = uint32(v)
-			}
-		}
-	}
-	// the audio track covers comparable real time (three out of four)
-	if len(tracks) == 2 && rapid.IntRange(0, 3).Draw(t, "align") != 0 {
-		a := &tracks[1]
-		factor := rapid.SampledFrom([]float64{0.5, 0.98, 1.0, 1.0, 1.01, 1.2, 2.0}).Draw(t, "alignFactor")
-		scale := totalSec(*video) * factor / totalSec(*a)
-		for i := range a.Samples {
-			v := float64(a.Samples[i].Dur)*scale + 0.5
-			switch {
-			case v < 1:
-				a.Samples[i].Dur = 1
-			case v > 1<<30:
-				a.Samples[i].Dur = 1 << 30
-			default:
-				a.Samples[i].Dur = uint32(v)
-			}
-		}
-	}
-	if len(tracks) == 2 && rapid.IntRange(0, 3).Draw(t, "audioFirst") == 0 {
-		tracks[0], tracks[1] = tracks[1], tracks[0]
-	}
-	c := segCase{Tracks: tracks}
-	c.Layout = mp4build.GenProgLayout(t, tracks)
-	vi := videoIndex(tracks)
-	if !c.Layout.Tracks[vi].Stss && avoiding(false, "segmenter-video-without-stss") {
-		c.Layout.Tracks[vi].Stss = true // legal also when all samples are sync samples
+	tracks, lay, mode, segDurMS, forced := mp4build.GenSegmenterInput(t, harness.Pick(30, 60), avoiding(false, "segmenter-video-without-stss"))
+	if forced {
 		excluded = append(excluded, "segmenter-video-without-stss")
 	}
-	c.Mode = rapid.SampledFrom([]string{"single", "mux", "lazy"}).Draw(t, "mode")
-	// segment duration: around the distance between sync samples, a fraction of the whole, tiny, beyond the end
-	v := tracks[vi]
-	ts := uint64(v.Timescale)
-	var syncStarts []uint64
-	var st uint64
-	for _, s := range v.Samples {
-		if s.Sync {
-			syncStarts = append(syncStarts, st)
-		}
-		st += uint64(s.Dur)
-	}
-	totalMS := st * 1000 / ts
-	switch k := rapid.IntRange(0, 9).Draw(t, "segDurKind"); {
-	case k < 4 && len(syncStarts) > 1:
-		tick := syncStarts[rapid.IntRange(1, len(syncStarts)-1).Draw(t, "segDurSync")]
-		c.SegDurMS = tick * 1000 / ts
-		if rapid.Bool().Draw(t, "segDurCeil") {
-			c.SegDurMS = (tick*1000 + ts - 1) / ts
-		}
-		c.SegDurMS += uint64(rapid.IntRange(-1, 1).Draw(t, "segDurDelta") + 1)
-		if c.SegDurMS > 0 {
-			c.SegDurMS--
-		}
-	case k < 7:
-		c.SegDurMS = totalMS / uint64(rapid.IntRange(2, 6).Draw(t, "segDurDiv"))
-	case k == 7:
-		c.SegDurMS = 1
-	case k == 8:
-		c.SegDurMS = totalMS + uint64(rapid.IntRange(0, 1000).Draw(t, "segDurBeyond"))
-	default:
-		c.SegDurMS = rapid.Uint64Range(1, totalMS+1).Draw(t, "segDurAny")
-	}
-	if c.SegDurMS == 0 {
-		c.SegDurMS = 1
-	}
-	if c.SegDurMS > 0xffffffff {
-		c.SegDurMS = 0xffffffff // the tool converts -d to uint32
-	}
-	return c, true, excluded
+	return segCase{Tracks: tracks, Layout: lay, Mode: mode, SegDurMS: segDurMS}, true, excluded
 }
 
 const batchSize = 16
